@@ -282,6 +282,11 @@ func planC03(tier string, seed int64) (*core.Plan, error) {
 // operation alphabet (every source subtree up to maxNodes nodes at every entry
 // point x strategy, delete, replace) as the JSON constant the model reads.
 func editModelRun(maxNodes int, timeoutMin int) (core.ModelRun, error) {
+	return storeModelRun("FcEditModel", maxNodes, timeoutMin)
+}
+
+// storeModelRun runs a model that extends the store state machine.
+func storeModelRun(module string, maxNodes int, timeoutMin int) (core.ModelRun, error) {
 	f, err := fx.Load("M0")
 	if err != nil {
 		return core.ModelRun{}, err
@@ -316,7 +321,7 @@ func editModelRun(maxNodes int, timeoutMin int) (core.ModelRun, error) {
 	tmp.Close()
 	core.TempFiles = append(core.TempFiles, tmp.Name())
 	return core.ModelRun{
-		TLC: core.TLCRun{Module: "FcEditModel", Workers: 16, HeapGB: 12, Timeout: time.Duration(timeoutMin) * time.Minute,
+		TLC: core.TLCRun{Module: module, Workers: 16, HeapGB: 12, Timeout: time.Duration(timeoutMin) * time.Minute,
 			Env: map[string]string{"SCHEMA": f.DSFile, "OPS": tmp.Name()}},
 		MustCover:   []string{"DoEdit", "DoDelete", "DoReplace"},
 		Description: fmt.Sprintf("store state machine on fixture M0 (keys k1,k2; one value per leaf), %d operations (all source subtrees <= %d nodes at every entry point x upsert/insert/update/replace, delete); invariants WellFormed/KeysUnique/OneCase; per-transition assertions (outcome predicate admits canonical outcome, idempotence, frame, update creates nothing, replace leaves exactly the source)", len(ops), maxNodes),
